@@ -19,7 +19,7 @@ import subprocess
 import sys
 
 VERIF = os.path.dirname(os.path.dirname(os.path.abspath(__file__)))
-ST = "/var/tmp/verif-st"
+ST = os.environ.get("VERIF_ST_DIR", "/var/tmp/verif-st")
 
 
 def sh(cmd, **kw):
@@ -93,6 +93,7 @@ def main():
     prepare()
     baseline = {}
     failed = 0
+    results = []
     for pid, c in cases:
         sh("git -C %s/repo checkout -- . && git -C %s/repo clean -fdq -e target" % (ST, ST))
         if pid not in baseline:
@@ -111,11 +112,15 @@ def main():
             ok = not new
             msg = "new violations: %s" % new
         print("%s %s/%s (%s) %s" % ("PASS" if ok else "FAIL", pid, c["name"], c["kind"], "" if ok else msg))
+        results.append({"case": c["name"], "kind": c["kind"], "expected_key": c.get("expect_key", ""), "checker_verdict_as_expected": ok, "new_violations": new})
         if not ok:
             failed += 1
     if not keep:
         shutil.rmtree(ST, ignore_errors=True)
     print("selftest: %d cases, %d failed" % (len(cases), failed))
+    if os.environ.get("VERIF_ST_SUMMARY"):
+        with open(os.environ["VERIF_ST_SUMMARY"], "w") as fh:
+            json.dump({"cases": len(cases), "failed": failed, "results": results}, fh)
     return 1 if failed else 0
 
 
